@@ -303,8 +303,12 @@ func (x *vtx) c17r1() {
 				zt := x.polyizer()
 				if lf, ok := g.loopFormAt(zt, g.Ins[n].Block()); ok {
 					trips, tok := lf.Trips, lf.TripsOK
+					early := lf.otherExits(g)
 					lf.Done()
 					okLoop = tok && trips.equal(polyAtom("t.tabWidth"))
+					if len(early) > 0 {
+						bad = "the TAB loop can be left before tabWidth spaces are written (an exit other than its counting test)"
+					}
 				}
 			}
 		}
